@@ -18,17 +18,14 @@ theorem seqBlocks_nil (cd : Codec α σ) (cur : Option (WBlk σ)) :
     seqBlocks cd cur [] = cur.toList := by
   rw [seqBlocks.eq_def]; cases cur <;> rfl
 
-/-- the in_blk is not exhausted: (for a `Codec.OK` collector) the block is
-    full, it is emitted, and the rest of the in_blk is collected next -/
-theorem seqBlocks_requeue (cd : Codec α σ) (ok : cd.OK) (wo : Option (WBlk σ)) (ib : IBlk α)
-    (Q : List (IBlk α))
+/-- for a `Codec.OK` collector, an in_blk that is not exhausted means the block
+    is full and (if the encoder was fresh) some bytes were taken: the `else []`
+    branch of `seqBlocks` is dead -/
+theorem requeue_cond (cd : Codec α σ) (ok : cd.OK) (wo : Option (WBlk σ)) (ib : IBlk α)
     (hl : (collectOn cd (wo.getD ⟨ib.pos, ib.pos, cd.init⟩).enc ib.data).2.1 ≠ []) :
     (collectOn cd (wo.getD ⟨ib.pos, ib.pos, cd.init⟩).enc ib.data).2.2 = true ∧
-    seqBlocks cd wo (ib :: Q) =
-      ⟨(wo.getD ⟨ib.pos, ib.pos, cd.init⟩).pos, (wo.getD ⟨ib.pos, ib.pos, cd.init⟩).next.incMinor,
-        (collectOn cd (wo.getD ⟨ib.pos, ib.pos, cd.init⟩).enc ib.data).1⟩ ::
-      seqBlocks cd none
-        (⟨ib.pos.incMinor, (collectOn cd (wo.getD ⟨ib.pos, ib.pos, cd.init⟩).enc ib.data).2.1⟩ :: Q) := by
+    ((collectOn cd (wo.getD ⟨ib.pos, ib.pos, cd.init⟩).enc ib.data).2.1.length <
+      ib.data.length ∨ wo.isSome = true) := by
   have hfull : (collectOn cd (wo.getD ⟨ib.pos, ib.pos, cd.init⟩).enc ib.data).2.2 = true := by
     cases hh : (collectOn cd (wo.getD ⟨ib.pos, ib.pos, cd.init⟩).enc ib.data).2.2 with
     | true => rfl
@@ -41,16 +38,28 @@ theorem seqBlocks_requeue (cd : Codec α σ) (ok : cd.OK) (wo : Option (WBlk σ)
       exact List.drop_eq_nil_of_le this
   have hd : ib.data ≠ [] := by
     intro h0; apply hl; simp [collectOn, h0]
-  have hcond : (collectOn cd (wo.getD ⟨ib.pos, ib.pos, cd.init⟩).enc ib.data).2.1.length <
-      ib.data.length ∨ wo.isSome = true := by
-    cases wo with
-    | some w => right; rfl
-    | none =>
-      left
-      have h1 := ok.fresh ib.data hd
-      have : 0 < ib.data.length := List.length_pos_iff.mpr hd
-      simp only [Option.getD_none, collectOn, List.length_drop]
-      omega
+  refine ⟨hfull, ?_⟩
+  cases wo with
+  | some w => right; rfl
+  | none =>
+    left
+    have h1 := ok.fresh ib.data hd
+    have : 0 < ib.data.length := List.length_pos_iff.mpr hd
+    simp only [Option.getD_none, collectOn, List.length_drop]
+    omega
+
+/-- the in_blk is not exhausted: (for a `Codec.OK` collector) the block is
+    full, it is emitted, and the rest of the in_blk is collected next -/
+theorem seqBlocks_requeue (cd : Codec α σ) (ok : cd.OK) (wo : Option (WBlk σ)) (ib : IBlk α)
+    (Q : List (IBlk α))
+    (hl : (collectOn cd (wo.getD ⟨ib.pos, ib.pos, cd.init⟩).enc ib.data).2.1 ≠ []) :
+    (collectOn cd (wo.getD ⟨ib.pos, ib.pos, cd.init⟩).enc ib.data).2.2 = true ∧
+    seqBlocks cd wo (ib :: Q) =
+      ⟨(wo.getD ⟨ib.pos, ib.pos, cd.init⟩).pos, (wo.getD ⟨ib.pos, ib.pos, cd.init⟩).next.incMinor,
+        (collectOn cd (wo.getD ⟨ib.pos, ib.pos, cd.init⟩).enc ib.data).1⟩ ::
+      seqBlocks cd none
+        (⟨ib.pos.incMinor, (collectOn cd (wo.getD ⟨ib.pos, ib.pos, cd.init⟩).enc ib.data).2.1⟩ :: Q) := by
+  obtain ⟨hfull, hcond⟩ := requeue_cond cd ok wo ib hl
   refine ⟨hfull, ?_⟩
   rw [seqBlocks]
   simp only [hl, hfull, hcond, ne_eq, not_false_eq_true, and_self, ↓reduceDIte, ↓reduceIte]
